@@ -37,12 +37,70 @@ def relevant(pid, case, d):
                (k == "post" and case.get("actout", "ok") != "ok")
     if pid == "C11":
         return op == "Get" and k in ("res", "out")
+    gen = sum(1 for o in case["path"] if o.get("op") == "Reload")     # how many save/load generations precede this call
+    if pid == "C01":
+        return op == "Reload" and gen == 0 and (k in ("post", "out") or k == "bytes")
+    if pid == "C03":
+        return op == "Reload" and k == "bytes"
+    if pid == "C04":
+        return op == "Reload" and gen >= 1 and k in ("post", "out", "bytes")
+    if pid == "C14":
+        return op == "Reload" and k in ("purity", "repeat")
     if pid == "C13":
         return False
     return False
 
 def diff_key(pid, case, d):
     return "%s:%s:%s:%s" % (pid, case["op"].get("op", "?"), d["k"], norm_path(d.get("path", "")))
+
+# ------------------------------------------------------------------ findings ledger: probes for the open entries
+def _run_ops(ez, ops):
+    import subprocess
+    d = vlib.scratch("probe")
+    r = subprocess.run([ez, "run", "--dir", d], input="\n".join(json.dumps(o) for o in ops) + "\n", stdout=subprocess.PIPE, text=True, timeout=120)
+    return [json.loads(l) for l in r.stdout.splitlines() if l.strip()]
+
+RATE100 = {"op": "SetParam", "g": vlib.codes("POINT"), "p": {"n": vlib.codes("RATE"), "d": [], "l": 1, "sets": [{"t": 4, "v": [[0, 0, 200, 66]], "dim": [], "scalar": 1}]}}
+def _pt(name, tag):
+    return {"n": vlib.codes(name), "v": [[tag, 1, 1, 64], [tag, 1, 2, 64], [tag, 1, 3, 64], [tag, 1, 4, 64]]}
+
+def probe_scale_word(ez):
+    ev = _run_ops(ez, [{"op": "New"}, {"op": "Save", "path": "p.c3d", "bytes": 1, "post": 0}])
+    b = ev[-1].get("bytes", [])
+    return len(b) >= 16 and b[12:16] == [255, 255, 255, 255]
+def probe_gap_frames(ez):
+    ev = _run_ops(ez, [{"op": "New"}, RATE100, {"op": "DeclPoint", "n": vlib.codes("p1")},
+                       {"op": "AddFrame", "idx": 1, "frame": {"p": [_pt("p1", 1)], "a": []}},
+                       {"op": "Save", "path": "p.c3d", "bytes": 1}])
+    if ev[-2]["out"] != "ok" or ev[-1]["out"] != "ok": return False
+    post = ev[-1]["post"]; b = ev[-1]["bytes"]
+    want = 2 * 16 * post["hdr"]["npts"]
+    dpos = 512 * (post["prm"]["nblk"] or 0)
+    datalen = len(b) - 512 * (b[16] + 256 * b[17] - 1)
+    return len(post["frm"]) == 2 and post["hdr"]["npts"] == 1 and datalen != want
+def probe_empty_shape_frames(ez):
+    ev = _run_ops(ez, [{"op": "New"}, {"op": "AddFrame", "idx": -1, "frame": {"p": [], "a": []}}])
+    post = ev[-1]["post"]
+    frames_param = [p for p in post["grp"][0]["p"] if vlib.uncodes(p["n"]) == "FRAMES"][0]["v"][0]
+    return ev[-1]["out"] == "ok" and len(post["frm"]) == 1 and frames_param == 1 and post["hdr"]["nframes"] == 0
+PROBES = {"scale_word": probe_scale_word, "gap_frames": probe_gap_frames, "empty_shape_frames": probe_empty_shape_frames}
+
+def known_findings(pid, ez):
+    """Re-observes every open ledger entry of this property on the real code; prints KNOWN-FINDING for those that still fail."""
+    n = 0
+    for f in vlib.load_ledger():
+        if f.get("status") != "open" or f.get("property") != pid: continue
+        fn = PROBES.get(f.get("probe"))
+        try:
+            hit = bool(fn and fn(ez))
+        except Exception as e:
+            log("[ledger] probe %s could not run: %s" % (f.get("probe"), e)); hit = False
+        if hit:
+            log("KNOWN-FINDING: property=%s %s: %s" % (pid, f["key"], f["what"]))
+            n += 1
+        else:
+            log("[ledger] open finding %s/%s is no longer observed on this tree" % (pid, f["key"]))
+    return n
 
 def report_replay(pid, results, tier, t0, level="model_checking", extra_cov=None, assumptions=()):
     """results: list of (slice name, result of vlib.replay_slice). Prints verdict lines, writes evidence, returns exit code."""
@@ -82,11 +140,14 @@ def report_replay(pid, results, tier, t0, level="model_checking", extra_cov=None
            "rule": "every transition of the bounded TLA+ instance is exported by TLC and replayed (path from Init + the call) on a fresh real "
                    "object; the full projected state, the outcome class and (for refused calls) state-before = state-after are compared"}
     if extra_cov: cov.update(extra_cov)
+    if "known_findings_observed" not in cov and report_replay.ez:
+        cov["known_findings_observed"] = known_findings(pid, report_replay.ez)
     vlib.write_evidence(pid, tier, level, cov, time.time() - t0, len(viol), assumptions)
     log("[%s] %s: %d states, %d transitions, %d replayed on the implementation, %d violation keys, %d drift keys, %.0fs" %
         (pid, tier, states, transitions, cases, len(viol), len(drift), time.time() - t0))
     return 1 if nviol else 0
 
+report_replay.ez = None
 SHAPE_ASSUME = ["rates are exact small integers (table in C3DBytes.tla), so integer arithmetic in TLC equals float arithmetic in the code",
                 "TLC explores the bounded instance completely; larger sizes rest on data independence (values are opaque 4-byte tuples)"]
 
@@ -96,7 +157,7 @@ def shape_consts(tier):
     return {"NP": 3, "NA": 1, "MaxFrames": 3, "MaxPts": 3, "MaxCh": 1, "IdxSlack": 2}
 
 def run_shape(pid, tier, t0):
-    ez = vlib.build("plain")
+    ez = report_replay.ez = vlib.build("plain")
     res = vlib.replay_slice("MC_Shape.tla", "MC_Shape.cfg", shape_consts(tier), ez, tag="shape", timeout=3000)
     return report_replay(pid, [("MC_Shape", res)], tier, t0, assumptions=SHAPE_ASSUME)
 
@@ -123,7 +184,17 @@ def run_lookup(pid, tier, t0):
                          assumptions=["positions 2^32 and 2^64-1 are tokens (-2, -1) mapped by the harness: TLC integers are 32 bit",
                                       "exception classes reduced most-derived-first as binding/ezc3d.i does"])
 
+def io_consts(tier):
+    return {"NP": 1, "NA": 1, "MaxFrames": 1 if tier == "quick" else 2, "MaxPts": 1 if tier == "quick" else 2}
+
+def run_io(pid, tier, t0):
+    ez = report_replay.ez = vlib.build("plain")
+    res = vlib.replay_slice("MC_IO.tla", "MC_IO.cfg", io_consts(tier), ez, tag="io", timeout=6000)
+    return report_replay(pid, [("MC_IO", res)], tier, t0, assumptions=SHAPE_ASSUME + [
+        "the specification's writer model is compared byte for byte with the bytes the real code writes; the model itself is shown self-consistent / round-tripping by TLC in every state"])
+
 CHECKS = {
+    "C01": run_io, "C03": run_io, "C04": run_io, "C14": run_io,
     "C11": run_lookup,
     "C09": run_params,
     "C06": run_frames,
